@@ -330,7 +330,11 @@ func newCluster(t testing.TB, cfg clusterCfg, net *simnet) (*cluster, error) {
 			return nil, err
 		}
 		w.Scrypt = keys.ScryptParams{N: 2, R: 1, P: 1}
-		acc := wallet.NewAccountFromPrivateKey(cl.keys[i])
+		kc, err := keys.NewPrivateKeyFromBytes(cl.keys[i].Bytes()) // Wallet.Close wipes the key it holds
+		if err != nil {
+			return nil, err
+		}
+		acc := wallet.NewAccountFromPrivateKey(kc)
 		pass := fmt.Sprintf("pass-%d", i)
 		if err := acc.Encrypt(pass, w.Scrypt); err != nil {
 			return nil, err
